@@ -513,7 +513,7 @@ theorem nodeIn_redirect {i : RedirIn} {ty : Str} {oa : RedirIn} {t o : Token} {m
     NodeIn len f (.redirect (t.lexpos, o.endlexpos) i ty out oa none none) g ∧
       NoPend (.redirect (t.lexpos, o.endlexpos) i ty out oa none none) := by
   obtain ⟨a, b, hp, ha, hab, hb, hr⟩ := ht
-  obtain ⟨a', b', hp', ha', hab', hb', hr'⟩ := ho
+  obtain ⟨a', b', hp', ha', hab', hb', hr', hw'⟩ := ho
   rw [(tok_lexspan hp).1, (tok_lexspan hp').2]
   cases out with
   | none =>
@@ -1428,7 +1428,7 @@ theorem nodeIn_bang_pipeline {t : Token} {sp : Span} {parts : List Node} {m : Na
     NodeIn len f (.pipeline (t.lexpos, b.pos.2)
       (.reservedword (t.lexpos, t.endlexpos) ['!'] :: parts)) g := by
   obtain ⟨hbang, _⟩ := nodeIn_reservedword (w := ['!']) ht
-  obtain ⟨a, e, hp, hfa, hae, hem, hel⟩ := ht
+  obtain ⟨a, e, hp, hfa, hae, hem, hel, hwt⟩ := ht
   obtain ⟨hlx, hle⟩ := tok_lexspan hp
   have hns := strict_iff.mp hn.strict
   have hne := endsBy_iff.mp hn.ends
